@@ -6,27 +6,27 @@ root = os.path.dirname(here)
 
 CHECKS = {
  'C01': dict(cat='model_checking', tech='trace validation of generated sessions against the TLA+ reference semantics SchemeCEK with TLC',
-   text='Every generated session (typed grammar over all core and derived forms, failure injection) and the hand-stated R7RS corpus is executed by the real VM (fresh, and after unrelated definitions) and validated form by form by TLC against the CEK machine of spec/SchemeCEK.tla: value, failure, error payload and output must match. Exhaustive only over the corpus; the grammar is sampled (400 quick / 20000 thorough sessions).',
+   text='Every generated session (typed grammar over all core and derived forms, failure injection) and the hand-stated R7RS corpus is executed by the real VM (fresh, and after unrelated definitions) and validated form by form by TLC against the CEK machine of spec/SchemeCEK.tla: value, failure, error payload and output must match. Exhaustive only over the corpus; the grammar is sampled (400 quick / 20000 thorough sessions). In addition the second, implementation-shaped TLA+ semantics Machine.tla (Compile: core form -> instructions; Exec: one instruction) is bound to the code: for grammar sessions and scope skeletons TLC compiles every macro-expanded form itself and requires the real compiler listing to be equal instruction for instruction, then executes it and requires sp, bp, instruction offset and the value in acc to be equal before every instruction (Trace_Machine).',
    note='Trusted: TLC/SANY/Json module, the Cell->JSON projection, my reading of R7RS encoded in SchemeCEK (regression: corpus/r7rs.scm). Sessions leaving the model (big integers, R7RS-unspecified steps) are abandoned and counted.', ref='5 C01'),
 
  'C02': dict(cat='model_checking', tech='trace validation of scope-skeleton sessions against the TLA+ reference semantics SchemeCEK (environment = name->location) with TLC',
-   text='Scope skeletons (nested procedures over a,b,c; parameter / rest / internal definition / free per level; set! before and after closure creation; closures invoked inside the creator, after its return, repeatedly; closures made in loops) log every read; the real VM runs them and TLC validates the complete read log against the CEK machine, whose environments map names to store locations, one location per binding per activation. Exhaustive for one level (216) in quick and for two levels (11664) in thorough; three and four levels sampled.',
-   note='Same trusted base as C01. The instruction-level environment model (slot indirection) is not part of this check.', ref='5 C02'),
+   text='Scope skeletons (nested procedures over a,b,c; parameter / rest / internal definition / free per level; set! before and after closure creation; closures invoked inside the creator, after its return, repeatedly; closures made in loops) log every read; the real VM runs them and TLC validates the complete read log against the CEK machine, whose environments map names to store locations, one location per binding per activation. Exhaustive for one level (216) in quick and for two levels (11664) in thorough; three and four levels sampled. The slot-level mechanism is checked as well: Machine.tla models environments as name -> (value | pointer into another environment), CLOSURE pointing captured names at the creator activation and ENTER cloning per activation; Trace_Machine requires every compiled lambda to capture every free variable (computed by the specification) bound by its enclosing lambda and validates the register trace of every instruction; MC_Machine model-checks Machine against SchemeCEK on a bounded grammar (every 61st of 1.39 million programs quick, all thorough) and on 3772 closure/continuation skeleton programs.',
+   note='Same trusted base as C01; slot numbers are compared by variable name (marwood numbers slots in hash-set iteration order).', ref='5 C02'),
  'C03': dict(cat='model_checking', tech='trace validation under forced collection schedules against the collector-free TLA+ semantics SchemeCEK; (structural half: MarwoodGC/Trace_GC)',
-   text='The CEK machine has no collector, so a single behaviour of it is the oracle for every collection schedule: each session (allocation-heavy templates, C01/C02/C05 generators) is executed with no forced collection, with a collection forced before every k-th instruction (k in 1..16) and under pseudo-random schedules, and every run is validated by TLC against that behaviour.',
+   text='The CEK machine has no collector, so a single behaviour of it is the oracle for every collection schedule: each session (allocation-heavy templates, C01/C02/C05 generators) is executed with no forced collection, with a collection forced before every k-th instruction (k in 1..16) and under pseudo-random schedules, and every run is validated by TLC against that behaviour. Register traces recorded under forced collections (every 1st / 2nd / 3rd instruction) are validated instruction by instruction against the collector-free instruction-level model Machine.tla.',
    note='Collections are forced through the verif hook at instruction boundaries (the place where natural collections happen). Same trusted base as C01.', ref='5 C03'),
  'C05': dict(cat='model_checking', tech='trace validation of continuation sessions against the TLA+ reference semantics SchemeCEK (continuation value = captured K) with TLC',
-   text='Sessions built from 15 parametrised continuation templates (escape, re-entry from later top-level forms, operand positions, storage in data, nested extents, generators, coroutines) are run in the real VM and validated form by form by TLC against the CEK machine, in which call/cc captures the continuation K as a value and invoking it replaces K while the store is kept.',
+   text='Sessions built from 15 parametrised continuation templates (escape, re-entry from later top-level forms, operand positions, storage in data, nested extents, generators, coroutines) are run in the real VM and validated form by form by TLC against the CEK machine, in which call/cc captures the continuation K as a value and invoking it replaces K while the store is kept. At instruction level Machine.tla models capture as a copy of stack[1..sp] and the registers and invocation as their restoration with the value in acc; the register trace of every instruction of continuation sessions is validated against it (Trace_Machine), the calling-protocol arithmetic against VMRules (Trace_VM).',
    note='Same trusted base as C01. Continuations are always invoked with exactly one value.', ref='5 C05'),
  'C07': dict(cat='model_checking', tech='trace validation of failure histories and their effects-only twin histories against SchemeCEK with TLC',
    text='Histories interleaving failing forms (9 templates incl. blocks of k identical failures, k<=50 quick / 1000 thorough) and probes are run twice in the real VM: as generated, and with each failing form replaced by the effects it completed. TLC validates both against the CEK machine (failure aborts the form, store and globals persist) and checks that every probe - value, failure, error payload, stack trace - is identical in both, that every evaluation starts at the idle stack pointer, and that stack capacity and live cells do not grow over repeated identical failures.',
    note='Same trusted base as C01. The stack-trace format is not specified; the residue-free twin history is its oracle.', ref='5 C07'),
  'C13': dict(cat='model_checking', tech='trace validation of sliced runs (prepare_eval + run_count budgets) against the slice-free TLA+ semantics SchemeCEK with TLC',
-   text='The CEK machine has no slices, so one behaviour is the oracle for every budget sequence: programs of the C01/C05/allocation generators are run with constant budgets 1..64 (each) and with seeded random budget sequences in 1..10^4; TLC validates value, failure, output and later global effects of every sliced run, and that no resumed slice with work left executes zero instructions.',
+   text='The CEK machine has no slices, so one behaviour is the oracle for every budget sequence: programs of the C01/C05/allocation generators are run with constant budgets 1..64 (each) and with seeded random budget sequences in 1..10^4; TLC validates value, failure, output and later global effects of every sliced run, and that no resumed slice with work left executes zero instructions. Register traces of runs in slices of 1, 5 and 37 instructions are validated instruction by instruction against the slice-free instruction-level model Machine.tla.',
    note='Same trusted base as C01; instructions per slice are counted by the verif hook.', ref='5 C13'),
 
  'C04': dict(cat='model_checking', tech='trace validation of tail-call loop programs against SchemeCEK with a refinement bound between continuation depth and the implementation stack pointer (TLC)',
-   text='In the CEK machine a call pushes no frame, so tail calls are exactly the calls across which the continuation depth D does not grow. For every loop program (21 tail contexts and their compositions x caller/callee arities 0..4 with/without rest x cycles of 1-3 procedures) TLC runs the machine at n=10 and n=100, checks value agreement with the implementation, D(10)=D(100), and that the implementation\'s maximal stack pointer stays within (D+2)(2W+5); the runs at n=1000 and n=100000 (implementation only, statistics hook) must stay within the same bound and return the value of the non-tail twin program.',
+   text='In the CEK machine a call pushes no frame, so tail calls are exactly the calls across which the continuation depth D does not grow. For every loop program (21 tail contexts and their compositions x caller/callee arities 0..4 with/without rest x cycles of 1-3 procedures) TLC runs the machine at n=10 and n=100, checks value agreement with the implementation, D(10)=D(100), and that the implementation\'s maximal stack pointer stays within (D+2)(2W+5); the runs at n=1000 and n=100000 (implementation only, statistics hook) must stay within the same bound and return the value of the non-tail twin program. The compiler side is checked directly: Compile of Machine.tla threads the tail flag as R7RS 3.5 defines tail position (if arms, last body expression; derived forms reach it macro-expanded) and Trace_Machine requires the real listing of every tail program to carry TCALL at exactly those applications, then validates the frame rewrite of every TCALL in the register trace.',
    note='The bound rests on the argument of DESIGN.md 5/C04 (each VM return frame belongs to a pending non-tail call under a distinct CEK context frame). TLC cannot run 10^5 iterations; the twin program is the value oracle there.', ref='5 C04'),
  'C11': dict(cat='model_checking', tech='exhaustive TLC model check of the reader grammar spec (Reader.tla) + replay of all TLC-generated token-class sequences into parse_text + trace validation of scanner spans',
    text='Reader.tla states R7RS 7.1.2 twice (grammar predicate and pushdown recogniser) and TLC proves them equivalent and prefix-consistent for all class sequences to length 7 (quick) / 8 (thorough). Every sequence to length 5 / 7 is emitted by TLC with its required classification (datum consuming k tokens / incomplete / error / unspecified), rendered with 8 spellings and separator choices and replayed into parse_text and the eval_text loop; seeded Unicode texts are scanned by the implementation and TLC validates the span discipline and the grammar verdict of each recorded text.',
